@@ -381,7 +381,44 @@ def maybe_preuse(mw, key, same=None):
         preuse_on_edited(mw, same)
     if h == 2 and same is not None:
         preuse_on_variant(mw, same, c // 5)
+    if h == 3 and same is not None and getattr(mw, "allow_inplace_modification", False):
+        prior_run_then_restore(mw, same)
     return mw
+
+
+def prior_run_then_restore(mw, lib):
+    """transform -> edit -> transform: an in-place instance first processes the very library it is about to
+    process; then every entry and string gets its content back (field list, keys, values; metadata entries that
+    existed before keep their old value) while metadata *added* by the run stays, as it would after a user edit.
+    The result of the next run must be a function of the content the blocks have now."""
+    import copy
+
+    saved = []
+    for b in lib.blocks:
+        if type(b) is Entry:
+            saved.append((b, list(b.fields), [(f, f.key, f.value, copy.deepcopy(f.value)) for f in b.fields], copy.deepcopy(b.parser_metadata), b.key, b.entry_type))
+        elif type(b) is String:
+            saved.append((b, None, (b.key, b.value), copy.deepcopy(b.parser_metadata), None, None))
+    try:
+        mw.transform(lib)
+    except Exception:
+        pass
+    for b, fields, old, meta, key, etype in saved:
+        if fields is None:
+            b.key, b.value = old
+        else:
+            b.fields = fields
+            b.key, b.entry_type = key, etype
+            for f, k, v, vcopy in old:
+                f.key = k
+                # the value object itself unless the run edited it in place (lists, name parts): then an untouched copy
+                try:
+                    untouched = type(v) is type(vcopy) and v == vcopy
+                except Exception:
+                    untouched = False
+                f.value = v if untouched else vcopy
+        for k, v in meta.items():
+            b.parser_metadata[k] = v
 
 
 _VARIANTS = (str.swapcase, str.upper, str.lower, lambda v: v + " ", lambda v: " " + v, lambda v: v.title(), lambda v: v.strip("{}\""))
